@@ -7,6 +7,7 @@
 mod wasm_driver;
 
 mod c03;
+mod c04;
 mod c07;
 mod c09;
 mod c10;
@@ -77,6 +78,7 @@ fn main() {
                 .enumerate()
                 .map(|(idx, c)| match prop {
                     "c03" => c03::replay(c),
+                    "c04" => c04::replay(c),
                     "c07" => c07::replay(c, thorough, cli.as_deref(), idx),
                     "c09" => c09::replay(c, thorough, cli.as_deref(), idx),
                     "c12" => c12::replay(c, &ls),
@@ -96,6 +98,7 @@ fn main() {
             let cli = opt(&args, "--cli");
             let out = match prop {
                 "c03" => c03::record(seed, n),
+                "c04" => c04::record(seed, n),
                 "c07" => c07::record(seed, n, cli.as_deref()),
                 "c12" => c12::record(seed, n),
                 "c10" => c10::record(seed, n),
